@@ -744,8 +744,66 @@ fn c12_strategy() -> BoxedStrategy<OrderCase> {
         .boxed()
 }
 
-fn check_c12_case(case: &OrderCase, _env: &mut Env) -> Verdict {
+fn check_c12_case(case: &OrderCase, env: &mut Env) -> Verdict {
     let mut v = Verdict::default();
+    // ---------------- daemon side, several iterations of one loop run: a report must never be
+    // forwarded with an as-of instant read after the request that produced it, also when the loop
+    // carries something over from one iteration to the next (PHC read failing, then succeeding)
+    if let Answer::Tracking(r1) = &case.answer {
+        let phc_path = env.fresh_path("c12-phc");
+        let _ = std::fs::remove_file(&phc_path);
+        let vc = VClock::new(case.uptime_ns as i128, 1_700_000_000_000_000_000);
+        let _g = vc.install();
+        let mut poller = dv::Poller::default();
+        let _ = vc.take_log();
+        let phc = Some(PhcInfo {
+            refid: r1.ref_id,
+            sysfs_error_bound_path: phc_path.clone(),
+        });
+        let mut reports = vec![r1.clone(), r1.clone(), r1.clone()];
+        for (k, r) in reports.iter_mut().enumerate() {
+            r.ref_time_ns += k as i64; // tell the three replies apart
+        }
+        let p2 = phc_path.clone();
+        let gap = 1_000_000_000 + (case.age_ns as i128 % 3_000_000_000);
+        let steps = vec![
+            BatchStep { gap_ns: 0, latency_ns: case.latency_ns as i128, answer: Answer::Tracking(reports[0].clone()), read_delays: vec![], at_start: None },
+            BatchStep {
+                gap_ns: gap,
+                latency_ns: 0,
+                answer: Answer::Tracking(reports[1].clone()),
+                read_delays: case.poll_delays.iter().map(|d| *d as i128).collect(),
+                at_start: Some(Box::new(move || {
+                    let _ = std::fs::write(&p2, b"4242\n");
+                })),
+            },
+            BatchStep { gap_ns: 1_000_000_000, latency_ns: 0, answer: Answer::Tracking(reports[2].clone()), read_delays: vec![], at_start: None },
+        ];
+        let obs = poll_batch(&mut poller, phc, steps, &vc);
+        let _ = std::fs::remove_file(&phc_path);
+        v.sub_evals += 1;
+        v.label("phc-read-fails-then-succeeds-across-iterations");
+        let requested_at: Vec<Option<i128>> = obs.iter().map(|o| o.query.map(|q| q.1)).collect();
+        for (k, o) in obs.iter().enumerate() {
+            if let Some(Message::ClockErrorBoundData((t, _, as_of))) = &o.message {
+                let a = crate::clock::timespec_to_ns(as_of);
+                match reports.iter().position(|r| tracking_of(r) == *t) {
+                    Some(j) => match requested_at.get(j).copied().flatten() {
+                        Some(tq) => {
+                            if a > tq {
+                                v.fail(format!(
+                                    "iteration {}: the report forwarded to the writer was requested from chronyd at {} (iteration {}), but the as-of instant attached to it, {}, was read after that request",
+                                    k, tq, j, a
+                                ));
+                            }
+                        }
+                        None => v.fail(format!("iteration {}: the report forwarded is the scripted reply {}, which chronyd was never asked for", k, j)),
+                    },
+                    None => v.fail(format!("iteration {}: the tracking data forwarded matches none of the replies", k)),
+                }
+            }
+        }
+    }
     // ---------------- daemon side
     let vc = VClock::new(case.uptime_ns as i128, 1_700_000_000_000_000_000);
     {
